@@ -163,6 +163,27 @@ def gen(c):
         add("sm9_g2", tb, dict(kind="oracle", cls="g2valid", expect=True))
         bad = bytearray(tb); bad[100] ^= 1
         add("sm9_g2", bytes(bad), dict(kind="oracle", cls="g2wrong", expect=sm9ref.g2_on_curve(sm9ref.g2_from_bytes(bytes(bad))) if False else False))
+    # SM9: every coordinate component written as value + p (where that still fits 32 bytes) must be refused -- octets and the master public key containers
+    need = {("g2", off): None for off in (1, 33, 65, 97)}
+    need.update({("g1", off): None for off in (1, 33)})
+    for _ in range(400):
+        if all(v is not None for v in need.values()):
+            break
+        T = sm9ref.g2_to_bytes(sm9ref.g2_mul(rng.randrange(1, sm9ref.N), sm9ref.P2))
+        Q = sm9ref.g1_mul(rng.randrange(1, sm9ref.N), sm9ref.P1)
+        Qb = b"\x04" + i2b(Q[0]) + i2b(Q[1])
+        for (grp, off), v in list(need.items()):
+            src = T if grp == "g2" else Qb
+            val = int.from_bytes(src[off:off + 32], "big")
+            if v is None and val + q < (1 << 256):
+                need[(grp, off)] = (src, src[:off] + i2b(val + q) + src[off + 32:])
+    for (grp, off), v in sorted(need.items()):
+        if v is None:
+            continue
+        good, alias = v
+        for path, wrap in ((("sm9_g2", lambda b: b), ("sm9_sign_mpk_der", lambda b: seq(dbits(b)))) if grp == "g2" else (("sm9_g1", lambda b: b), ("sm9_enc_mpk_der", lambda b: seq(dbits(b))))):
+            add(path, wrap(good), dict(kind="oracle", cls="%s:canonical@%d" % (path, off), expect=True))
+            add(path, wrap(alias), dict(kind="oracle", cls="%s:component+p@%d" % (path, off), expect=False))
     return cases, lines
 
 
